@@ -111,6 +111,9 @@ func (p c14) one(c *fw.Ctx, req Req, r interface{ Intn(int) int }) {
 		return
 	}
 	if _, ok := o.bc.(barcode.BarcodeIntCS); !ok {
+		if req.Fam == "code128nocs" {
+			return // the variant without check character need not expose a checksum
+		}
 		c.Violation("checksum/"+req.Fam+"/missing", "barcode does not expose CheckSum()", inner, "")
 		return
 	}
@@ -143,6 +146,13 @@ func (p c14) one(c *fw.Ctx, req Req, r interface{ Intn(int) int }) {
 			return
 		}
 		p.checkValue(c, req, res.Expected, res.Check, r, o.bc)
+	case "code128nocs":
+		res, err := refdec.DecodeCode128(bits, false)
+		if err != nil {
+			return
+		}
+		// it exposes CheckSum(): then the value is the symbology's modulo-103 check value
+		p.checkValue(c, req, res.Expected, -1, r, o.bc)
 	case "code39":
 		res, err := refdec.DecodeCode39(bits, req.int(0) != 0)
 		if err != nil {
@@ -177,6 +187,9 @@ func (p c14) Exec(c *fw.Ctx, u *fw.Unit) {
 				rs[j] = c128Rep(r, r.Intn(c128Classes))
 			}
 			p.one(c, Req{Fam: "code128", S: []byte(string(rs)), Scheme: -1}, r)
+			if i%3 == 0 {
+				p.one(c, Req{Fam: "code128nocs", S: []byte(string(rs)), Scheme: -1}, r)
+			}
 		}
 	case "cs.c128long":
 		// long contents incl. those that switch code set at every rune (largest weights)
